@@ -273,6 +273,47 @@ def keyed_gate(ctx, sw, w, label, raw, recips, inner, want, alg, sk):
                 ctx.fail('keyed-gate', 'a malformed integrity structure was accepted', {'op': 'fault', 'blob': blob.hex(), 'recipient': list(r), 'want': None, 'mutation': name})
 
 
+def mdc_boundaries(ctx, sw, w):
+    """protected streams (prefix + repeat + packets) whose length is exactly a multiple of 64 KiB, one octet less and one more: whatever way
+    an implementation slices the data for hashing, a flipped bit anywhere in it - the last slices in particular - must be refused"""
+    rng = ctx.rng
+    for alg, k64 in ([(7, 1), (3, 1)] if ctx.quick else [(7, 1), (7, 2), (9, 1), (3, 1), (2, 1), (11, 3)]):
+        if alg not in w.ciphers:
+            continue
+        bs = BLOCK[alg]
+        sk = bytes(rng.randrange(256) for _ in range(KEYLEN[alg]))
+        recips = [('P', 'pw-boundary', 8, 16)]
+        for delta in (0, -1, 1):
+            target = k64 * 65536 + delta
+            # literal packet octets needed: target - (bs + 2); find the body length that gives it
+            raw = None
+            for n in range(target - bs - 2 - 20, target - bs - 2 + 1):
+                body = bytes((i * 131 + 7) & 0xff for i in range(max(n, 0)))
+                r0, inner, want = make_message(ctx, w, recips, alg, body=body, sk=sk)
+                if bs + 2 + len(inner) == target:
+                    raw = r0; break
+            if raw is None:
+                ctx.skipped.append('mdc-boundary: no body length gives a stream of %d octets' % target); continue
+            label = 'boundary %s stream=%d' % (CIPHER_NAMES.get(alg, alg) if 'CIPHER_NAMES' in globals() else alg, target)
+            o = sw.one('mdc-boundary', label, 'none', raw, recips[0], inner, want)
+            if o != ('ok', want):
+                ctx.fail('mdc-boundary', 'unmodified message with a stream of %d octets does not decrypt' % target, {'op': 'fault', 'blob': None, 'stream': target, 'alg': alg}); continue
+            pk = walk(raw)
+            sp = [p for p in pk if p[0] == 18][0]
+            c0, c1 = sp[2] + 1, sp[3]                      # ciphertext octets
+            positions = [c1 - 23, c1 - 23 - bs, c1 - 22 - 65536 + 5, c1 - 22 - 32768, c0 + bs + 2, c0 + (c1 - c0) // 2] + \
+                        [rng.randrange(max(c0, c1 - 22 - 65536), c1 - 22) for _ in range(ctx.n(4, 30))]
+            for pos in positions:
+                if not (c0 <= pos < c1 - 22):
+                    continue
+                mm = bytearray(raw); mm[pos] ^= 1 << rng.randrange(8)
+                o2 = w.impl_decrypt(bytes(mm), recips[0])
+                ctx.case('mdc-boundary', (alg, target, pos), sample={'cipher': alg, 'stream': target, 'flip_at_from_end': c1 - pos})
+                if o2[0] == 'ok':
+                    ctx.fail('mdc-boundary', 'a flipped bit %d octets before the end of a %d-octet protected stream is not refused' % (c1 - pos, target),
+                             {'op': 'boundary', 'alg': alg, 'stream': target, 'pos_from_end': c1 - pos, 'same_plaintext': o2[1] == want})
+
+
 def run_history(w, raw, steps):
     """several decrypt calls on ONE parsed message object; steps: list of recipient tuples; returns the outcomes"""
     with warnings.catch_warnings():
@@ -443,6 +484,7 @@ def run(ctx):
             keyed_gate(ctx, sw, w, label, raw, recips, inner, want, alg, sk)
             histories(ctx, sw, w, label, raw, recips, inner, want)
             wrong_secrets(ctx, sw, w, label, raw, recips, inner, want)
+        mdc_boundaries(ctx, sw, w)
         downgrade_witness(ctx, sw, w)
         ctx.notes.append('model exception vs implementation exception on rejected inputs: %s' %
                          sorted(('%s / %s' % k, v) for k, v in sw.pairs.items()))
